@@ -24,6 +24,8 @@ LEVEL_TEXT = (
     "(a deduplication, selection, sort or slice over the leaf).  Every reported commutation is decoded and evaluated: first then second (then the original "
     "again if partial) must give the rows of existing-then-new in the same order, and both reported operations must be "
     "well-formed where they would be applied; a refusal must hand back the existing operation."
+    "  User-defined operations (stable sort, even filter, position filter, count threshold, reverse, drop-repeats) "
+    "occur as the existing and as the new operation."
 )
 LEVEL_NOTE = "trusts: decoding of operations via public dataclass fields; reference semantics of vf/core/prog.py; join results compared as multisets (join order is engine-defined)"
 RULE = (
